@@ -92,9 +92,14 @@ EX = [
     # an old-style example that starts / ends with a comment line and whose compound statement echoes values
     ('comment_loop_echo', ">>> # show the values\n... for i in range(2):\n...     T({k}, i + 1)"),
     ('loop_echo_comment', ">>> for i in range(2):\n...     T({k}, i + 1)\n... # done"),
+    # accepted by the standard module, not by xdoctest (known findings F54-F57)
+    ('compound_blank_header', ">>> for i in range(2):\n...\n...     print(T({k}, i))"),
+    ('exc_sysexit', ">>> T({k}); raise SystemExit(2)"),
+    ('future_after', ">>> from __future__ import division; T({k})"),
+    ('true_for_1', ">>> T({k}, 1) == 1"),
 ]
 EXD = dict(EX)
-SPECIAL_WANT = {'skipd_ownline': 'nope', 'skipd_loopbody': 'nope', 'nwsd_ownline': 'a b', 'dir_space_skip': 'nope', 'ied_nested': 'Traceback (most recent call last):\nJSONDecodeError: whatever',
+SPECIAL_WANT = {'exc_sysexit': 'Traceback (most recent call last):\nSystemExit: 2', 'true_for_1': '1', 'skipd_ownline': 'nope', 'skipd_loopbody': 'nope', 'nwsd_ownline': 'a b', 'dir_space_skip': 'nope', 'ied_nested': 'Traceback (most recent call last):\nJSONDecodeError: whatever',
                 'dir_comma': '[0, ..., 19] a b', 'dir_space': '[0, ..., 19] a b', 'ell': '[0, 1, ..., 19]', 'skipd': 'nope', 'nws': 'a b',
                 'ied': 'Traceback (most recent call last):\nValueError: other',
                 'raise_stack': 'Traceback (most recent call last):\n  File "<stdin>", line 1, in <module>\nKeyError: \'kk\''}
@@ -260,7 +265,9 @@ class CompatSpec(Spec):
         v = harness.verdict_of(r.summary)
         std_v = 'passed' if std_trace or attempted else 'passed'
         if r.raised is not None:
-            atoms.append({'sig': 'compat:xdoctest-raises:' + type(r.raised).__name__, 'msg': repr(r.raised)})
+            cause = {'DoctestParseError': 'compound_blank_header', 'SystemExit': 'exc_sysexit'}.get(type(r.raised).__name__)
+            special = cause if cause in [e[0] for e in events] else None
+            atoms.append({'sig': 'compat:xdoctest-raises:' + type(r.raised).__name__ + (':' + special if special else ''), 'msg': repr(r.raised)})
         elif v == 'failed':
             fp = r.doctest.failed_part
             last = fp.exec_lines[-1] if hasattr(fp, 'exec_lines') and fp.exec_lines else ''
